@@ -5,6 +5,7 @@
 package main
 
 import (
+	"time"
 	"bufio"
 	"encoding/json"
 	"flag"
@@ -124,6 +125,7 @@ func main() {
 	capN := flag.Int("cap", 200000, "max schedules per program for the exhaustive search")
 	randN := flag.Int("random", 0, "additional seeded random schedules per program")
 	maxPre := flag.Int("preempt", -1, "pre-emption bound for the exhaustive search (-1: unbounded)")
+	budget := flag.Duration("budget", 0, "wall-clock budget per program for the exhaustive search (0: none)")
 	free := flag.Int("free", 0, "free-running repetitions per program (for -race builds); no scheduler")
 	prof := flag.String("cpuprofile", "", "write a CPU profile")
 	flag.Parse()
@@ -172,7 +174,8 @@ func main() {
 			}
 		} else {
 			prefix := []int{}
-			for n < *capN {
+			t0 := time.Now()
+			for n < *capN && (*budget == 0 || time.Since(t0) < *budget) {
 				o, ex := runOnce(p, *seed+int64(n), prefix, sched.First, rng, *maxPre, false)
 				record(o, ex)
 				n++
